@@ -497,10 +497,10 @@ def mk_event(entry, order_rng=None, **kw):
 def stream_write_and_damage(ctx, probe):
     rng = ctx.rng
     P = pool()
-    n_files = ctx.scale(6, len(P))
+    n_files = ctx.scale(6, 8)
     chosen = P[:4] + rng.sample(P[4:], max(0, n_files - 4)) if n_files < len(P) else P
     if ctx.widen:
-        chosen = P
+        chosen = P[:4] + rng.sample(P[4:], 6)
     write_cases, write_meta, read_cases, read_meta = [], [], [], []
     for fi, entry in enumerate(P):
         world = World(ctx, probe, 'wd%d' % fi)
@@ -532,7 +532,7 @@ def stream_write_and_damage(ctx, probe):
         # ---- damage: truncations and single-byte changes of this file ----------------------------------
         H = len(hdr)
         edits = []
-        full = ctx.thorough() or ctx.widen or chosen.index(entry) < 1     # every small offset / header byte
+        full = ctx.thorough() or chosen.index(entry) < (2 if ctx.widen else 1)     # every small offset / header byte
         bounds = [0, 1, H - 1, H, H + 1, H + 2, H + 1 + len(pu) - 1, H + 1 + len(pu), H + 1 + len(pu) + 1, len(F) - 2, len(F) - 1]
         if ctx.thorough():
             offs = list(range(len(F)))
@@ -679,7 +679,7 @@ def coq_history(world, hist, obs):
 def stream_histories(ctx, probe):
     rng = ctx.rng
     P = pool()
-    n = ctx.scale(30, 400) * (3 if ctx.widen else 1)
+    n = ctx.scale(30, 400) * (2 if ctx.widen and not ctx.thorough() else 1)
     fixed = []
     # the witnesses of F3 (repaired): option text moved into the grammar / between options
     fixed.append({'f0': None, 'events': [mk_event(P[2]), mk_event(P[3]), mk_event(P[2])]})
@@ -796,9 +796,9 @@ def stream_exotic(ctx, probe):
 def correspond(ctx):
     probe = Probe()
     try:
-        stream_write_and_damage(ctx, probe)
-        stream_histories(ctx, probe)
         stream_exotic(ctx, probe)
+        stream_histories(ctx, probe)
+        stream_write_and_damage(ctx, probe)
     finally:
         probe.close()
 
